@@ -49,14 +49,14 @@ PYAGREE = {
     'C13': ['PyCan', 'Threaded', 'ThreadedWorker'],
     'C14': ['LayerQueues', 'Exec2Bridge', 'Threaded', 'ThreadedWorker'],
     'C10': ['LayerProcess', 'LayerWhole'],
-    'C15': ['LayerTxHelpers'],
+    'C15': ['LayerTxHelpers', 'LimiterLoop'],
     'C16': ['AddressValidate', 'AddressInit'],
     'C17': ['LayerTxHelpers', 'LayerTx', 'GenConsume'],
     'C19': ['SockOpts'],
     'C20': ['AddressFns', 'SockOpts', 'SockGuards'],
 }
 # leaves that are finished and committed
-PYAGREE_READY = {'GenConsume', 'ThreadedWorker', 'Threaded', 'PyCan', 'LayerWhole', 'SockGuards', 'LayerTxWhole', 'MiscFrame', 'LayerProcess', 'LayerTx', 'LayerRx', 'LayerSend', 'LayerTxHelpers', 'LayerQueues', 'Exec2Bridge', 'SockOpts', 'AddressFns', 'AddressValidate', 'AddressInit', 'Pdu', 'MiscFd', 'MiscFc', 'MiscTimer'}
+PYAGREE_READY = {'LimiterLoop', 'GenConsume', 'ThreadedWorker', 'Threaded', 'PyCan', 'LayerWhole', 'SockGuards', 'LayerTxWhole', 'MiscFrame', 'LayerProcess', 'LayerTx', 'LayerRx', 'LayerSend', 'LayerTxHelpers', 'LayerQueues', 'Exec2Bridge', 'SockOpts', 'AddressFns', 'AddressValidate', 'AddressInit', 'Pdu', 'MiscFd', 'MiscFc', 'MiscTimer'}
 
 
 def pyagree_theorems(mod):
